@@ -1,10 +1,207 @@
 import SV.Driver.Util
-/- svdriver_c18: line protocol for the C18 model (stub until the model is built). -/
-namespace SV.Driver.C18
+import SV.Model.Creds
+/-
+svdriver_c18: line protocol for the C18 model (SV/Model/Creds.lean).
 
-def step (s : Unit) : List String → Unit × String
+keychain (norm := normDocker)
+  k.reset                                -> ok
+  k.connect                              -> ok
+  k.pull <image hex> <auth> <backend 0|1>   -> ok|err key=<hex|!>
+  k.remove <image hex> <backend 0|1>        -> ok|err key=<hex|!>
+  k.query <host hex> <ref hex>           -> ok <user hex> <secret hex> | err
+  pa <auth> <host hex>                   -> ok <user hex> <secret hex> | err      (ParseAuth)
+  uh <url hex>                           -> host=<hex> | err                      (url.Parse(..).Host)
+  norm <image hex>                       -> key=<hex|!>
+  mc <r1>;<r2>;...                       -> ok <u> <s> calls=<n> | err calls=<n>  (multiCredsFuncs)
+     r = e | <user hex>:<secret hex>
+  <auth> = nil | u=<hex>,p=<hex>,a=<hex>,s=<hex>,i=<hex>,r=<hex>
+
+fetcher
+  f.new <absent|retry|fail> <force 0|1> <v{0|1}h{0|1},...> <answers>  -> ok|err reqs=.. st=..
+  f.read <answers>      -> - reqs=.. st=..
+  f.check <answers>     -> ok|err reqs=.. st=..
+  f.refresh <answers>   -> ok|err reqs=.. st=..
+  <answers> = - | comma list of 200 206 3r<i> 3o 3- 401 403 400 neterr x
+  reqs = - | ;-list of <H|P|F>@<r<i>|o>/<h<j>|->     st = none | b<i>,u<r<i>|o>,c<h<j>|->,s<0|1>
+-/
+namespace SV.Driver.C18
+open SV.Driver SV.Creds
+
+structure St where
+  k : KState := {}
+  cfg : FCfg := ⟨.absent, false, []⟩
+  f : Option FState := none
+
+def parseField? (kv : String) : Option (String × List UInt8) :=
+  match kv.splitOn "=" with
+  | [k, v] => (unhex? v).map fun b => (k, b)
+  | _ => none
+
+def parseAuthCfg? (s : String) : Option (Option AuthConfig) :=
+  if s = "nil" then some none
+  else
+    match (s.splitOn ",").mapM parseField? with
+    | some [("u", u), ("p", p), ("a", a), ("s", sa), ("i", i), ("r", r)] =>
+      match String.fromUTF8? ⟨sa.toArray⟩ with
+      | some sa => some (some { username := u, password := p, auth := a, serverAddress := sa,
+                                identityToken := i, registryToken := r })
+      | none => none
+    | _ => none
+
+def showRes : Res → String
+  | .ok u s => s!"ok {hex u} {hex s}"
+  | .err => "err"
+
+def showKey : Option Ref → String
+  | some k => s!"key={hexStr k}"
+  | none => "key=!"
+
+def parseBool? : String → Option Bool
+  | "0" => some false
+  | "1" => some true
+  | _ => none
+
+def parseTarget? (s : String) : Option Target :=
+  if s = "o" then some .other
+  else match s.toList with
+    | 'r' :: ds => (String.ofList ds).toNat?.map .reg
+    | _ => none
+
+def parseAns? (s : String) : Option Ans :=
+  match s with
+  | "200" => some .ok200
+  | "206" => some .partial206
+  | "401" => some .unauth401
+  | "403" => some .forbidden403
+  | "400" => some .badReq400
+  | "neterr" => some .netErr
+  | "x" => some .other
+  | "3-" => some .redirectNoLoc
+  | _ => match s.toList with
+    | '3' :: t => (parseTarget? (String.ofList t)).map .redirect
+    | _ => none
+
+def parseScript? (s : String) : Option (List Ans) :=
+  if s = "-" then some [] else (s.splitOn ",").mapM parseAns?
+
+def parseHostCfg? (s : String) : Option HostCfg :=
+  match s.toList with
+  | ['v', v, 'h', h] =>
+    match parseBool? (String.ofList [v]), parseBool? (String.ofList [h]) with
+    | some v, some h => some ⟨v, h⟩
+    | _, _ => none
+  | _ => none
+
+def parseAuthz? : String → Option Authz
+  | "absent" => some .absent
+  | "retry" => some .retry
+  | "fail" => some .fail
+  | _ => none
+
+def showTarget : Target → String
+  | .reg i => s!"r{i}"
+  | .other => "o"
+
+def showCarries : Option Nat → String
+  | some j => s!"h{j}"
+  | none => "-"
+
+/-- Wire class of a request: HEAD, fetch GET (Accept-Encoding: identity), probe GET (Range 0-1). -/
+def showKind : ReqKind → String
+  | .head => "H"
+  | .fetch => "F"
+  | .redirect | .sizeGet | .check => "P"
+
+def showReqs (l : List Req) : String :=
+  if l.isEmpty then "-"
+  else ";".intercalate (l.map fun r => s!"{showKind r.kind}@{showTarget r.target}/{showCarries r.carries}")
+
+def showFSt : Option FState → String
+  | none => "none"
+  | some st => s!"b{st.host},u{showTarget st.url},c{showCarries st.hdr},s{if st.single then 1 else 0}"
+
+def fline (res : String) (log : List Req) (st : Option FState) (rest : List Ans) : String :=
+  let base := s!"{res} reqs={showReqs log} st={showFSt st}"
+  if rest.isEmpty then base else s!"{base} leftover={rest.length}"
+
+def okErr (b : Bool) : String := if b then "ok" else "err"
+
+def parseMcRes? (s : String) : Option Res :=
+  if s = "e" then some .err
+  else match s.splitOn ":" with
+    | [u, p] =>
+      match unhex? u, unhex? p with
+      | some u, some p => some (.ok u p)
+      | _, _ => none
+    | _ => none
+
+def step (s : St) : List String → St × String
+  | ["k.reset"] => ({ s with k := {} }, "ok")
+  | ["k.connect"] => ({ s with k := (kstep normDocker s.k .connect).1 }, "ok")
+  | ["k.pull", image, auth, backend] =>
+    match unhexStr? image, parseAuthCfg? auth, parseBool? backend with
+    | some image, some auth, some backend =>
+      let (k', ok) := kstep normDocker s.k (.pull image auth backend)
+      ({ s with k := k' }, s!"{okErr ok} {showKey (normDocker image)}")
+    | _, _, _ => (s, "bad-op")
+  | ["k.remove", image, backend] =>
+    match unhexStr? image, parseBool? backend with
+    | some image, some backend =>
+      let (k', ok) := kstep normDocker s.k (.remove image backend)
+      ({ s with k := k' }, s!"{okErr ok} {showKey (normDocker image)}")
+    | _, _ => (s, "bad-op")
+  | ["k.query", host, ref] =>
+    match unhexStr? host, unhexStr? ref with
+    | some host, some ref => (s, showRes (credentials s.k host ref))
+    | _, _ => (s, "bad-op")
+  | ["pa", auth, host] =>
+    match parseAuthCfg? auth, unhexStr? host with
+    | some auth, some host => (s, showRes (parseAuth auth host))
+    | _, _ => (s, "bad-op")
+  | ["uh", u] =>
+    match unhexStr? u with
+    | some u =>
+      match urlHost u with
+      | some h => (s, s!"host={hexStr h}")
+      | none => (s, "err")
+    | none => (s, "bad-op")
+  | ["norm", image] =>
+    match unhexStr? image with
+    | some image => (s, showKey (normDocker image))
+    | none => (s, "bad-op")
+  | ["mc", rs] =>
+    match (if rs = "-" then some [] else (rs.splitOn ";").mapM parseMcRes?) with
+    | some rs =>
+      let fs : List (String → Ref → Res) := rs.map fun r => fun _ _ => r
+      (s, s!"{showRes (multiCreds fs "" "")} calls={consulted rs}")
+    | none => (s, "bad-op")
+  | ["f.new", az, force, hosts, script] =>
+    match parseAuthz? az, parseBool? force, (hosts.splitOn ",").mapM parseHostCfg?, parseScript? script with
+    | some az, some force, some hosts, some sc =>
+      let cfg : FCfg := ⟨az, force, hosts⟩
+      let (log, f, rest) := newFetcher az force hosts sc
+      ({ s with cfg := cfg, f := f }, fline (okErr f.isSome) log f rest)
+    | _, _, _, _ => (s, "bad-op")
+  | ["f.read", script] =>
+    match s.f, parseScript? script with
+    | some st, some sc =>
+      let (log, st', _, rest) := fstep s.cfg st (.read sc)
+      ({ s with f := some st' }, fline "-" log (some st') rest)
+    | _, _ => (s, "bad-op")
+  | ["f.check", script] =>
+    match s.f, parseScript? script with
+    | some st, some sc =>
+      let (log, st', ok, rest) := fstep s.cfg st (.check sc)
+      ({ s with f := some st' }, fline (okErr ok) log (some st') rest)
+    | _, _ => (s, "bad-op")
+  | ["f.refresh", script] =>
+    match s.f, parseScript? script with
+    | some st, some sc =>
+      let (log, st', ok, rest) := fstep s.cfg st (.refresh sc)
+      ({ s with f := some st' }, fline (okErr ok) log (some st') rest)
+    | _, _ => (s, "bad-op")
   | _ => (s, "bad-op")
 
 end SV.Driver.C18
 
-def main : IO Unit := SV.Driver.loop SV.Driver.C18.step ()
+def main : IO Unit := SV.Driver.loop SV.Driver.C18.step {}
